@@ -192,7 +192,11 @@ func genEvidenceWorld(rng *core.Rng, i int) world.WorldSpec {
 		for j := range s.PACE {
 			s.PACE[j].CAM = false
 		}
-		s.AA = &world.AASpec{Kind: "rsa", Bits: core.Pick(rng, []int{1024, 1280, 1536, 2048}), Hash: core.Pick(rng, []string{"SHA1", "SHA224", "SHA256", "SHA384", "SHA512"}), M1: core.Pick(rng, []string{"random", "zero", "ff", "leadzero"})}
+		s.AA = &world.AASpec{Kind: "rsa", Bits: core.Pick(rng, []int{1024, 1280, 1536, 2048, 3072, 4096}), Hash: core.Pick(rng, []string{"SHA1", "SHA224", "SHA256", "SHA384", "SHA512"}), M1: core.Pick(rng, []string{"random", "zero", "ff", "leadzero"})}
+		if s.AA.Bits > 2048 {
+			// signatures of 384 / 512 octets need an extended-length INTERNAL AUTHENTICATE
+			s.MaxLe = 1024
+		}
 	case 3: // AA ECDSA
 		s.CA = nil
 		for j := range s.PACE {
@@ -849,6 +853,13 @@ func (StoreCorruptEngine) Gen(prop, tier string, seed uint64, yield func(c any) 
 			s.DG2Size = core.Pick(rng, []int{4200, 6000, 9000, 13000})
 			stride = 3
 		}
+		if i%8 == 3 {
+			// files around and beyond 32 KiB up to the largest length a 4-byte header read can announce (where READ BINARY addressing and CBOR length
+			// forms change); a sparse position grid bounds the cost of the enumeration
+			s.DGs = []int{1, 2}
+			s.DG2Size = []int{32700, 32767, 32768, 40000, 60000, 65000}[(i/8)%6]
+			stride = 61
+		}
 		if !yield(StoreCorruptCase{Spec: s, Evidence: i%3 != 0, Synthetic: rng.Intn(8), DropFiles: rng.Intn(64), Stride: stride}) {
 			return
 		}
@@ -959,16 +970,27 @@ func (StoreCorruptEngine) Run(prop string, ci any) *core.Outcome {
 			f()
 		}
 	}
-	// synthetic evidence kinds (import does not verify evidence, so any values exercise the codec)
+	// synthetic evidence kinds (import does not verify evidence, so any values exercise the codec); a third of the
+	// fixed-width values start with one or two zero octets (derived from the value itself: no extra draw)
+	lz := func(b []byte) []byte {
+		if t := b[len(b)-1]; t%3 == 0 {
+			b[0] = 0
+			if t%2 == 0 {
+				b[1] = 0
+			}
+			out.Probe("evidence_value_leading_zero")
+		}
+		return b
+	}
 	if c.Evidence {
 		if c.Synthetic&1 != 0 && d.Session.PaceCamResult == nil {
-			d.Session.PaceCamResult = &document.PaceCamResult{Success: true, Evidence: &document.PaceCamEvidence{PaceOid: chip.PaceOID(chip.AES128, true), ParameterId: 13, Nonce: rng.Bytes(16), TermMapPri: rng.Bytes(32), TermMapPub: rng.Bytes(65), ChipMapPub: rng.Bytes(65), TermKaPri: rng.Bytes(32), TermKaPub: rng.Bytes(65), ChipKaPub: rng.Bytes(65), EcadIC: rng.Bytes(48)}}
+			d.Session.PaceCamResult = &document.PaceCamResult{Success: true, Evidence: &document.PaceCamEvidence{PaceOid: chip.PaceOID(chip.AES128, true), ParameterId: 13, Nonce: lz(rng.Bytes(16)), TermMapPri: lz(rng.Bytes(32)), TermMapPub: rng.Bytes(65), ChipMapPub: rng.Bytes(65), TermKaPri: lz(rng.Bytes(32)), TermKaPub: rng.Bytes(65), ChipKaPub: rng.Bytes(65), EcadIC: rng.Bytes(48)}}
 		}
 		if c.Synthetic&2 != 0 && d.Session.ChipAuthResult == nil {
-			d.Session.ChipAuthResult = &document.ChipAuthResult{Success: true, Evidence: &document.ChipAuthEvidence{TermPri: rng.Bytes(32), TermPubKey: rng.Bytes(65), SmRapdu: rng.Bytes(16), SmSsc: rng.Bytes(8)}}
+			d.Session.ChipAuthResult = &document.ChipAuthResult{Success: true, Evidence: &document.ChipAuthEvidence{TermPri: lz(rng.Bytes(32)), TermPubKey: rng.Bytes(65), SmRapdu: rng.Bytes(16), SmSsc: lz(rng.Bytes(8))}}
 		}
 		if c.Synthetic&4 != 0 && d.Session.ActiveAuthResult == nil {
-			d.Session.ActiveAuthResult = &document.ActiveAuthResult{Success: true, Evidence: &document.ActiveAuthEvidence{Algorithm: []int{1, 2, 840, 113549, 1, 1, 1}, Nonce: rng.Bytes(8), Signature: rng.Bytes(128)}}
+			d.Session.ActiveAuthResult = &document.ActiveAuthResult{Success: true, Evidence: &document.ActiveAuthEvidence{Algorithm: []int{1, 2, 840, 113549, 1, 1, 1}, Nonce: lz(rng.Bytes(8)), Signature: lz(rng.Bytes(128))}}
 		}
 	}
 	var blob []byte
